@@ -396,7 +396,13 @@ fn prepare_event(case: &Value, out: &mut dyn Write) {
                 Outcome::Err(k, m) => fail("prepare-again", k, &m),
                 Outcome::Panic(m) => fail("prepare-again", "Panic", &m),
             };
-            json!({"ok": true, "list": list, "exact": exact, "again": again})
+            // Factors::to_nearby with the regulatory nearby list (conformance only, no property)
+            let nearby = match catch_unwind(AssertUnwindSafe(|| f.to_nearby(&Carrier::NRBY))) {
+                Ok(n) => json!({"ok": true, "list": factors_json(&n).0,
+                                "perimeter": n.wmeta.iter().any(|m| m.key == "CTE_PERIMETRO" && m.value == "NEARBY")}),
+                Err(_) => json!({"ok": false}),
+            };
+            json!({"ok": true, "list": list, "exact": exact, "again": again, "nearby": nearby})
         }
         Outcome::Err(k, m) => fail("prepare", k, &m),
         Outcome::Panic(m) => fail("prepare", "Panic", &m),
